@@ -10,15 +10,25 @@ CHECK = {'pkg': '.',
          'body (Heartbeat: as an error code). The server handles requests strictly in wire order; per request index the script says: answer, answer '
          'after a hold (until k further requests arrived / until the client provably cannot send / until no request arrived for 30 ms), one-byte '
          'body, wrong correlation id (full frame or bare header), answer swapped with the next request, truncated frame then close, length field '
-         '<=4 or >MaxResponseSize, garbage header (negative length; non-empty tagged fields for header v1), abrupt close, silence (ReadTimeout '
-         '100..150 ms, else 1 s); after a fault the server closes or keeps answering later requests correctly; in a quarter of the cases Close races '
+         '<=4 or >MaxResponseSize, garbage header (negative length; non-empty tagged fields for header v1), abrupt close, silence, stalled body '
+         '(the intact header - right length, right correlation id - and 0..999 permille of the body, connection left open; the server sends '
+         'nothing more until it has seen that very call return, which it does by read timeout, and then goes on with the script: complete '
+         'well-formed frames for the requests that are outstanding or come later; scripted in about 1 case of 8, reached as the first fault with the call timing out in about 1 of 16) (silence and stalled body: '
+         'ReadTimeout 100..150 ms, else 1 s); after a fault the server closes or keeps answering later requests correctly (after a stalled body: '
+         'always the latter); in a quarter of the cases Close races '
          'with the callers after a drawn number of received requests, and Close is always called twice. Oracles: a returned response carries the '
-         "call's own token, stems from a request the server really answered, and that request lies before the first fault of the connection; a "
+         "call's own token, stems from a request the server really answered, and that request lies before the first fault of the connection "
+         '(sticky failure: the call hit by the fault, every call outstanding then and every later call fail - for a stalled body that is the '
+         'call whose body read timed out, the calls outstanding when it returned and the calls issued afterwards); a '
          'one-byte body yields an error; an answered call before any fault does not fail (unless an unscripted read timeout was observed); '
          'correlation ids are unique; no call, Close or second Close hangs (quiescence rule); no panic (PanicHandler and recover in callers); '
-         'high-water mark of response-expecting requests received and not yet handled by the server (measured until the first fault) <= '
-         'MaxOpenRequests. Non-trivial: the server saw a 2nd response-expecting request before it answered the 1st (high-water >= 2), or the first '
-         'fault happened with >= 2 such requests unanswered; distinct = hash of the case.',
+         'high-water mark of response-expecting requests received and not yet handled by the server, taken over the part of the history in '
+         'which the client provably still served the connection (up to the last correct answer that a call returned), <= MaxOpenRequests; '
+         'this clause is judged last, so that its known symptom max+1 (KF-C14-1) cannot hide another failure of the same case. '
+         'Non-trivial: the server saw a 2nd response-expecting request before it answered the 1st (high-water >= 2), or the first '
+         'fault happened with >= 2 such requests unanswered; distinct = hash of the case. Coverage classes stallbody:timeout_seen[:...] count the '
+         'cases in which the stall was the first fault and the stalled call was seen to fail by timeout (with calls outstanding at that moment '
+         '/ with calls issued only afterwards / MaxOpenRequests >= 2 / with a Close race).',
  'assumptions': ['internal/vfref = snapshot of the pinned sarama sources, used as the reference codec for response bodies and for decoding request '
                  'bodies; the request envelope, the Produce request prefix and the response framing rule (header v1 only for OffsetFetch v6+) are '
                  "the harness's own",
@@ -26,8 +36,13 @@ CHECK = {'pkg': '.',
                  'server nor any caller made a step for 5 s (thorough 8 s); sarama timers in a case: ReadTimeout 100 ms..1 s',
                  'an acks=0 Produce has no response to match: only "returns, without a response" is judged for it, also after a fault',
                  'holds are scheduling aids driven by the wall clock (30 ms idle window); verdicts are not: when a hold outlasts Net.ReadTimeout on a '
-                 'loaded machine the case is judged without the completeness and occupancy clauses (class partially_judged)',
-                 'wire occupancy is what the server can see (received minus handled); it is a lower bound of what is on the wire']}
+                 'loaded machine the case is judged without the completeness clause (class partially_judged), and requests written after the '
+                 'client gave the connection up on its own never enter the occupancy mark (it ends at the last correct answer that came back)',
+                 'wire occupancy is what the server can see (received minus handled); it is a lower bound of what is on the wire; a pile-up '
+                 'after which no correct answer was returned is not judged (class occupancy>max:not_judged)',
+                 'a stalled body ends when the harness has seen the stalled call return, not after an interval; the wait is bounded by 20 s only '
+                 'to keep a stuck case from blocking the run, and a stall that ends at the bound closes the connection, sends nothing more and is '
+                 'not judged (class partially_judged:stall_bound; never observed)']}
 
 TEXT = {'level': 'Random concurrent call mixes against a scripted raw server with every listed connection fault at every request position, with response '
           'holds that make pile-ups observable and Close races; token echo, first-fault, liveness (quiescence), panic and wire-occupancy oracles.',
